@@ -218,3 +218,87 @@ func VerifH_C10_Reach() {
 	vCover("end")
 	vAssert(!d.HasValue(), "reach-twin")
 }
+
+// ---- O3 (part): the permissioned fetcher over the real multiFetcher (showDeleted: active + deleted streams) ----
+
+type pLivelock struct{}
+
+// pCountingACP panics once the ACP system has been consulted far more often than there are documents
+type pCountingACP struct {
+	*pACP
+	limit int
+}
+
+func (a *pCountingACP) IsDocRegistered(ctx context.Context, policyID, resourceName, docID string) (bool, error) {
+	if a.pACP.calls > a.limit {
+		panic(pLivelock{})
+	}
+	return a.pACP.IsDocRegistered(ctx, policyID, resourceName, docID)
+}
+
+// VerifH_C10_ShowDeleted — the fetch loop of wrappingFetcher.FetchNext (NextDoc, then GetFields for every
+// yielded document) over permissionedFetcher(multiFetcher(active, deleted)): terminates and yields exactly the
+// readable documents of both streams in document-id order. conf: n (documents)
+func VerifH_C10_ShowDeleted() {
+	n := vConfInt("n")
+	def := client.CollectionDefinition{Version: client.CollectionVersion{Name: "T", CollectionID: "col",
+		Policy: immutable.Some(client.PolicyDescription{ID: "pol1", ResourceName: "res1"})}}
+	acp := &pACP{wantPolicy: "pol1", wantRes: "res1"}
+	active, deleted := &pInner{failAt: -1}, &pInner{failAt: -1}
+	var readable []bool
+	for i := 0; i < n; i++ {
+		id := "bae-doc" + string(rune('0'+i))
+		acp.ids = append(acp.ids, id)
+		reg, allowed := vBool("registered"), vBool("allowed")
+		acp.registered = append(acp.registered, reg)
+		acp.allowed = append(acp.allowed, allowed)
+		acp.regErr = append(acp.regErr, false)
+		acp.chkErr = append(acp.chkErr, false)
+		readable = append(readable, !reg || allowed)
+		if vChoose("is-deleted", 2) == 1 {
+			deleted.ids = append(deleted.ids, id)
+		} else {
+			active.ids = append(active.ids, id)
+		}
+	}
+	top := newPermissionedFetcher(context.Background(), immutable.None[acpIdentity.Identity](),
+		&pCountingACP{pACP: acp, limit: 8 * (n + 1)}, &vCol{def: def}, newMultiFetcher(active, deleted))
+	var got []string
+	terminated := false
+	func() {
+		defer func() {
+			if r := recover(); r != nil {
+				if _, ok := r.(pLivelock); !ok {
+					panic(r)
+				}
+			}
+		}()
+		for k := 0; k < n+2; k++ {
+			d, err := top.NextDoc()
+			vAssert(err == nil, "next-no-error")
+			if err != nil || !d.HasValue() {
+				break
+			}
+			got = append(got, d.Value())
+			_, err = top.GetFields()
+			vAssert(err == nil, "getfields-no-error")
+		}
+		terminated = true
+	}()
+	vCover("fetched")
+	vAssert(terminated, "fetch-loop-terminates")
+	if !terminated {
+		return
+	}
+	var want []string
+	for i := 0; i < n; i++ {
+		if readable[i] {
+			want = append(want, acp.ids[i])
+		}
+	}
+	vAssert(len(got) == len(want), "exactly-the-readable-documents")
+	for i := 0; i < len(got) && i < len(want); i++ {
+		vAssert(got[i] == want[i], "exactly-the-readable-documents-in-order")
+	}
+	vObserve("n", len(got))
+}
